@@ -25,7 +25,8 @@ Open Scope Z_scope.
 
 Definition wrap32 (z : Z) : Z := (z + 2147483648) mod 4294967296 - 2147483648.
 
-Inductive binop := OAdd | OSub | OMul | OLt | OLe | OEq | ONe.
+Inductive binop := OAdd | OSub | OMul | OLt | OLe | OEq | ONe
+  | OHlp.   (* call of the kernel file's helper function  int h0(const int a, const int b) { return a * 2 + b; } *)
 
 Definition b2z (b : bool) : Z := if b then 1 else 0.
 
@@ -33,6 +34,7 @@ Definition binop_eval (o : binop) (a b : Z) : Z :=
   match o with
   | OAdd => wrap32 (a + b) | OSub => wrap32 (a - b) | OMul => wrap32 (a * b)
   | OLt => b2z (a <? b) | OLe => b2z (a <=? b) | OEq => b2z (a =? b) | ONe => b2z (negb (a =? b))
+  | OHlp => wrap32 (wrap32 (a * 2) + b)
   end.
 
 (* how an oblock uses a global array *)
